@@ -769,11 +769,12 @@ func c01R8As(c *Ctx, r string) {
 				continue
 			}
 			n += len(acks)
-			c.Dominated(r, "v1 nack handler: Source.Ack after DLQHandlerNode.Nack ok", asInstrs(acks), okGates(kit.CallsTo(fn, Set(dlqNack)), ""), "the DLQHandlerNode.Nack success edge")
+			// DLQHandlerNode.Nack itself, or a helper whose success implies its success
+			c.Dominated(r, "v1 nack handler: Source.Ack after DLQHandlerNode.Nack ok", asInstrs(acks), okGates(kit.CallsToOK(fn, Set(dlqNack), 1), ""), "the DLQHandlerNode.Nack success edge")
 			// a failed DLQ hand-off always fails the nack: behind the failure edge of DLQHandlerNode.Nack
 			// every return hands back an error that is non-nil by construction (the DLQ error itself or an
 			// error constructor), never the result of something that may turn it into nil
-			for _, dn := range kit.CallsTo(fn, Set(dlqNack)) {
+			for _, dn := range kit.CallsToOK(fn, Set(dlqNack), 1) {
 				derr := kit.ErrResult(dn)
 				for _, e := range kit.FailEdges(dn) {
 					for _, ret := range kit.Returns(fn) {
@@ -786,6 +787,11 @@ func c01R8As(c *Ctx, r string) {
 							// load of the cell the DLQ error was stored to, not reassigned since
 							if du, isDU := derr.(*ssa.UnOp); isDU && du.X == u.X {
 								ok = true
+							}
+							for _, cu := range kit.CellUses(u.X) {
+								if st, isSt := cu.Instr.(*ssa.Store); isSt && st.Val == derr && kit.Reaches(st, ret, nil) {
+									ok = true
+								}
 							}
 						}
 						if cl, isCall := v.(*ssa.Call); isCall {
